@@ -75,6 +75,27 @@ def hook_branches(hook: Func):
             if lits and top:
                 for l in lits:
                     out.setdefault(l, n.body)
+    # guard-clause spelling: `if mode_weight != 'a' and mode_weight != 'b': return` - what follows in the block handles a and b
+    from ..astutil import conjuncts
+    for n in own_nodes(hook.node):
+        if isinstance(n, ast.If) and not n.orelse and n.body and isinstance(n.body[-1], (ast.Return, ast.Raise)):
+            c = conjuncts(n.test, True)
+            if not c:
+                continue
+            lits = []
+            for t, pol, node in c:
+                if pol is False and isinstance(node, ast.Compare) and len(node.ops) == 1 and unparse(node.left) == "mode_weight" \
+                        and isinstance(node.ops[0], (ast.Eq, ast.NotEq)) and isinstance(const(node.comparators[0]), str):
+                    lits.append(const(node.comparators[0]))
+                else:
+                    lits = []
+                    break
+            par = getattr(n, "_parent", None)
+            blk = getattr(par, "body", None)
+            if lits and isinstance(blk, list) and any(n is x for x in blk):
+                rest = blk[[i for i, x in enumerate(blk) if x is n][0] + 1:]
+                for l in lits:
+                    out.setdefault(l, rest)
     return out
 
 
